@@ -185,7 +185,8 @@ type c15Stats struct {
 // c15Obs sits directly on the real backend and counts SetNX outcomes.
 type c15Obs struct {
 	types.FullStorage
-	st *c15Stats
+	st   *c15Stats
+	onNX func(key string, ok bool) // optional: told about every completed SetNX
 }
 
 func (o *c15Obs) SetNX(key string, value any, ttl time.Duration) (bool, error) {
@@ -195,6 +196,9 @@ func (o *c15Obs) SetNX(key string, value any, ttl time.Duration) (bool, error) {
 			o.st.nxTrue.Add(1)
 		} else {
 			o.st.nxFalse.Add(1)
+		}
+		if o.onNX != nil {
+			o.onNX(key, ok)
 		}
 	}
 	return ok, err
@@ -1347,6 +1351,180 @@ func TestVerifC15Aging(t *testing.T) {
 	run.Floor("held_ids", 50)
 	run.Floor("refused_after_aging", 50)
 	run.Floor("generated_after_aging", 5)
+}
+
+// TestVerifC15Janitor — memory backend with its janitor running. A dedicated goroutine
+// calls memory.Storage.CleanupExpired in a tight loop (the store also holds 20 000
+// unexpired runtime entries, so one sweep takes a while) while G IDManagers x 4
+// goroutines compete for K <= 4 candidate ids per kind. Expired-but-unswept markers
+// exist all the time: a holder's marker "lapses" (the harness rewrites the marker with a
+// 1 ms TTL, as if the holder had died long ago and the marker's lifetime ran out) and is
+// then legitimately re-acquired by the next SetNX. Interval rule for the lapse: it is a
+// Release whose interval runs from before the rewrite until after a sleep of twice the
+// TTL, so the instant of expiry lies certainly inside. Oracle unchanged (live-set model).
+func TestVerifC15Janitor(t *testing.T) {
+	vk.Quiet()
+	run := vk.Start(t, "C15", "idgen-janitor")
+	defer run.Finish()
+	run.Rule("case = (memory store + 20000 unexpired runtime entries, CleanupExpired in a tight loop on its own goroutine, K in {1,2,4} candidates for the client and user kinds, G in {2,4} IDManagers x 4 goroutines: Generate / Release / marker lapse (rewritten with 1 ms TTL, recorded as a Release spanning the expiry)); random yields at every storage op; distinct = (K,G,subseed)")
+	ent := c15InstallEntropy(t, run)
+	r := run.Rand("janitor")
+	reps := run.Pick(1, 10)
+	const lapseTTL = time.Millisecond
+	fam := &c15Stats{}
+	planned, decided := 0, 0
+	kinds := []int{0, 1} // client, user
+	for _, k := range []int{1, 2, 4} {
+		for _, g := range []int{2, 4} {
+			for rep := 0; rep < reps; rep++ {
+				planned++
+				if run.Violations() >= 20 {
+					continue
+				}
+				cs := c15Case{Backend: "memory+janitor", K: k, G: g, Threads: 4, Ops: 40, RelPct: 50, Sub: r.Int63()}
+				run.Case(fmt.Sprintf("janitor|K=%d|G=%d", k, g), cs)
+				ok := func() bool {
+					ctx, cancel := context.WithCancel(context.Background())
+					defer cancel()
+					mem := memory.New(ctx)
+					for i := 0; i < 20000; i++ {
+						_ = mem.Set(fmt.Sprintf("tunnox:runtime:junk:%d", i), "x", time.Hour)
+					}
+					var lapsed sync.Map
+					var sweeping atomic.Bool
+					var sweeps, reacq, reacqSweep atomic.Int64
+					obs := &c15Obs{FullStorage: mem, st: fam, onNX: func(key string, ok bool) {
+						if !ok {
+							return
+						}
+						if _, was := lapsed.LoadAndDelete(key); was {
+							reacq.Add(1)
+							if sweeping.Load() {
+								reacqSweep.Add(1)
+							}
+						}
+					}}
+					gs := vk.NewGated("mem", obs)
+					gs.SetHook(c15YieldHook(mrand.New(mrand.NewSource(cs.Sub^0x1e1d)), nil))
+					e := &c15Env{run: run, ent: ent, cs: cs, hist: &c15Hist{}, dbTaken: map[int64]bool{}, seeded: map[string]bool{}}
+					for i := 0; i < g; i++ {
+						e.mgrs = append(e.mgrs, NewIDManager(gs, ctx))
+					}
+					ent.rd.reset(k, cs.Sub^0x5eed)
+					stopJ := make(chan struct{})
+					jDone := make(chan struct{})
+					go func() {
+						defer close(jDone)
+						for {
+							select {
+							case <-stopJ:
+								return
+							default:
+							}
+							sweeping.Store(true)
+							_ = mem.CleanupExpired()
+							sweeping.Store(false)
+							sweeps.Add(1)
+							runtime.Gosched()
+						}
+					}()
+					lapse := func(n, th int, o c15Owned) {
+						kd := c15Kinds[o.kind]
+						key := kd.keyPrefix + ":" + o.id
+						op := c15Op{Kind: kd.name, ID: o.id, Node: n, Thread: th, Via: "marker-lapsed", Call: e.hist.now()}
+						lapsed.Store(key, true)
+						if err := gs.Set(key, "lapsed", lapseTTL); err != nil {
+							lapsed.Delete(key)
+							return
+						}
+						time.Sleep(2 * lapseTTL) // the marker's expiry lies certainly before the return stamp
+						op.Ret = e.hist.now()
+						op.OK = true
+						e.hist.add(op)
+						run.Count("markers_lapsed", 1)
+					}
+					done := make(chan struct{})
+					go func() {
+						defer close(done)
+						var wg sync.WaitGroup
+						for w := 0; w < g*cs.Threads; w++ {
+							wg.Add(1)
+							go func(w int) {
+								defer wg.Done()
+								rr := mrand.New(mrand.NewSource(cs.Sub*131 + int64(w)))
+								n, th := w/cs.Threads, w%cs.Threads
+								var own []c15Owned
+								for i := 0; i < cs.Ops && !e.stop.Load(); i++ {
+									if len(own) > 0 && (len(own) >= 2 || rr.Intn(100) < cs.RelPct) {
+										o := own[0]
+										own = own[1:]
+										if rr.Intn(100) < 60 {
+											lapse(n, th, o)
+										} else if !e.release(n, th, o) {
+											own = append(own, o)
+										}
+										continue
+									}
+									kd := kinds[rr.Intn(len(kinds))]
+									if id, ok := e.generate(n, th, kd, ""); ok {
+										own = append(own, c15Owned{kd, id})
+									}
+								}
+							}(w)
+						}
+						wg.Wait()
+					}()
+					conclusive := true
+					select {
+					case <-done:
+					case <-time.After(120 * time.Second):
+						e.stop.Store(true)
+						run.Count("watchdog", 1)
+						conclusive = false
+						select {
+						case <-done:
+						case <-time.After(20 * time.Second):
+						}
+					}
+					close(stopJ)
+					<-jDone
+					run.Count("sweeps", sweeps.Load())
+					run.Count("lapsed_marker_reacquired", reacq.Load())
+					run.Count("lapsed_marker_reacquired_while_sweep_running", reacqSweep.Load())
+					if !conclusive {
+						return false
+					}
+					e.hist.mu.Lock()
+					ops := append([]c15Op(nil), e.hist.ops...)
+					e.hist.mu.Unlock()
+					bad, unknown, parts := c15CheckHistory(ops)
+					run.Count("history_ops", int64(len(ops)))
+					run.Count("partitions_checked", int64(parts))
+					run.Count("checker_timeouts", int64(unknown))
+					for _, p := range bad {
+						run.Violation("C15:duplicate-live-id|backend=memory|janitor=running",
+							map[string]any{"case": cs, "kind": p[0].Kind, "id": p[0].ID, "witness": c15Witness(p)})
+					}
+					return unknown == 0
+				}()
+				if ok {
+					decided++
+				}
+				run.Eval(1)
+				run.Distinct(fmt.Sprintf("K=%d|G=%d|%d", k, g, cs.Sub))
+				run.Sample(cs)
+			}
+		}
+	}
+	run.Count("collisions", fam.nxFalse.Load())
+	if decided == planned || (run.Counter("watchdog") == 0 && run.Violations() >= 20) {
+		run.Count("all_cases_decided", 1)
+	}
+	run.Floor("all_cases_decided", 1)
+	run.Floor("sweeps", 200)
+	run.Floor("markers_lapsed", 100)
+	run.Floor("lapsed_marker_reacquired", 50)
+	run.Floor("lapsed_marker_reacquired_while_sweep_running", 20)
 }
 
 // TestVerifC15UUID: connection / mapping-instance / tunnel ids come from UUIDv7 and
